@@ -43,9 +43,14 @@ static bool parseInts(std::vector<std::string> const& t, std::size_t from, std::
 	}
 	return true;
 }
+// rational (dyadic) coordinates: a line may start with the token q<den> (den a power of two); the real algorithms then
+// get every coordinate divided by den (exact in binary floating point), the oracles work on the integer numerators, and
+// volumes are reported multiplied by den^m (exact) - by homogeneity the same line as without the token
+static double g_den = 1;
+static double scaleOf(std::size_t m){ double s = 1; for(std::size_t i = 0; i != m; ++i) s *= g_den; return s; }
 static RealVector vec(std::vector<long long> const& a, std::size_t from, std::size_t m){
 	RealVector v(m);
-	for(std::size_t i = 0; i != m; ++i) v(i) = (double)a[from+i];
+	for(std::size_t i = 0; i != m; ++i) v(i) = (double)a[from+i] / g_den;
 	return v;
 }
 static Points pts(std::vector<long long> const& a, std::size_t from, std::size_t m, std::size_t n){
@@ -86,9 +91,9 @@ static long long cellHv(Points const& P, RealVector const& ref){
 	if(P.empty()) return 0;
 	std::vector<long long> lo(m), z(m);
 	for(std::size_t d = 0; d != m; ++d){
-		lo[d] = (long long)ref(d);
-		for(auto const& p: P) lo[d] = std::min(lo[d], (long long)p(d));
-		if(lo[d] >= (long long)ref(d)) return 0;
+		lo[d] = (long long)(ref(d) * g_den);
+		for(auto const& p: P) lo[d] = std::min(lo[d], (long long)(p(d) * g_den));
+		if(lo[d] >= (long long)(ref(d) * g_den)) return 0;
 	}
 	z = lo;
 	long long count = 0;
@@ -96,12 +101,12 @@ static long long cellHv(Points const& P, RealVector const& ref){
 		bool cov = false;
 		for(auto const& p: P){
 			bool le = true;
-			for(std::size_t d = 0; d != m && le; ++d) if(p(d) > (double)z[d]) le = false;
+			for(std::size_t d = 0; d != m && le; ++d) if(p(d) * g_den > (double)z[d]) le = false;
 			if(le){ cov = true; break; }
 		}
 		if(cov) ++count;
 		std::size_t d = 0;
-		while(d != m){ if(++z[d] < (long long)ref(d)) break; z[d] = lo[d]; ++d; }
+		while(d != m){ if(++z[d] < (long long)(ref(d) * g_den)) break; z[d] = lo[d]; ++d; }
 		if(d == m) break;
 	}
 	return count;
@@ -121,6 +126,13 @@ int main(){
 	while(std::getline(std::cin, line)){
 		std::vector<std::string> t = vh::tokens(line);
 		if(t.empty()){ std::cout << "\n"; continue; }
+		g_den = 1;
+		if(t[0].size() > 1 && t[0][0] == 'q' && t.size() > 1){
+			long long dq = 0; bool okq = true;
+			for(std::size_t c = 1; c < t[0].size(); ++c){ if(t[0][c] < '0' || t[0][c] > '9'){ okq = false; break; } dq = dq * 10 + (t[0][c] - '0'); }
+			if(!okq || dq <= 0 || (dq & (dq - 1)) != 0 || dq > 1024 || t[1] == "hoys" || t[1] == "dca" || t[1] == "dcb"){ std::cout << "bad-op\n"; continue; }
+			g_den = (double)dq; t.erase(t.begin());
+		}
 		std::string const& op = t[0];
 		std::ostringstream os; std::string orc;
 		try{
@@ -149,7 +161,9 @@ int main(){
 			RealVector ref = vec(a, 2, m);
 			Points P = pts(a, 2+m, m, n);
 			long long want = cellHv(P, ref);
-			auto emit = [&](char const* name, double v){
+			double const S = scaleOf(m);
+			auto emit = [&](char const* name, double v0){
+				double v = v0 * S;
 				os << (os.tellp() > 0 ? " " : "") << name << "=" << num(v);
 				if(v != (double)want) orc += std::string(" !oracle hv-def ") + name;
 			};
@@ -165,12 +179,14 @@ int main(){
 			RealVector ref = vec(a, 3, m);
 			Points P = pts(a, 3+m, m, n);
 			typedef std::vector<KeyValuePair<double,std::size_t> > Res;
-			auto call = [&](std::size_t kk) -> Res {
+			double const S = scaleOf(m);
+			auto call0 = [&](std::size_t kk) -> Res {
 				if(alg == "2d"){ HypervolumeContribution2D c; return kind == "small" ? c.smallest(P, kk, ref) : c.largest(P, kk, ref); }
 				if(alg == "3d"){ HypervolumeContribution3D c; return kind == "small" ? c.smallest(P, kk, ref) : c.largest(P, kk, ref); }
 				if(alg == "md"){ HypervolumeContributionMD c; return kind == "small" ? c.smallest(P, kk, ref) : c.largest(P, kk, ref); }
 				HypervolumeContribution c; return kind == "small" ? c.smallest(P, kk, ref) : c.largest(P, kk, ref);
 			};
+			auto call = [&](std::size_t kk) -> Res { Res res = call0(kk); for(auto& kv: res) kv.key *= S; return res; };
 			bool inexact = false;
 			// (1) k = n: every point is reported once; canonical form = contribution by index
 			Res full = call(n);
@@ -340,7 +356,7 @@ int main(){
 					if(A[c-1][j] >= 0) A[c][i] = std::max(A[c][i], A[c-1][j] + (ref(0) - F[i](0)) * (F[j](1) - F[i](1)));
 				double best = 0;
 				for(std::size_t c = 1; c <= k; ++c) for(std::size_t i = 0; i != f; ++i) best = std::max(best, A[c][i]);
-				if((double)got < best) orc += " !oracle subset-not-optimal";
+				if((double)got < best * scaleOf(2)) orc += " !oracle subset-not-optimal";
 			}
 			os << " sel=[";
 			{ bool first = true; for(std::size_t i = 0; i != n; ++i) if(selected[i]){ os << (first ? "" : ",") << i; first = false; } }
